@@ -1933,6 +1933,7 @@ class Normaliser:
         params = {x.arg for x in a + func.args.kwonlyargs}
         before = len(self.log)
         self._cur_path = path
+        self._cur_func = func
         self._rename_apart(path, qual, func, known | params)
         for _round in range(6):
             n0 = len(self.log)
@@ -2341,6 +2342,27 @@ class Normaliser:
             return False
         if isinstance(it, (ast.Tuple, ast.List)) and it.elts and all(atomic(e) for e in it.elts) and not any(isinstance(e, ast.Starred) for e in it.elts):
             return list(it.elts)
+        # pairwise(accumulate((w1, .., wn), initial=0)) over a literal table of widths: the consecutive (start, end) offsets
+        def _nm(c):
+            return c.func.id if isinstance(c.func, ast.Name) else c.func.attr if isinstance(c.func, ast.Attribute) else None
+        if isinstance(it, ast.Call) and _nm(it) == 'pairwise' and len(it.args) == 1 and not it.keywords and isinstance(it.args[0], ast.Name) \
+                and isinstance(self._cur[1].get(it.args[0].id), ast.Call) and _nm(self._cur[1][it.args[0].id]) == 'accumulate' \
+                and getattr(self, '_cur_func', None) is not None \
+                and sum(1 for n in ast.walk(self._cur_func) if isinstance(n, ast.Name) and n.id == it.args[0].id and isinstance(n.ctx, ast.Load)) == 1:
+            # the iterator is bound to a local that is read exactly once, here
+            it = ast.Call(func=it.func, args=[self._cur[1][it.args[0].id]], keywords=[])
+        if isinstance(it, ast.Call) and _nm(it) == 'pairwise' and len(it.args) == 1 and not it.keywords and isinstance(it.args[0], ast.Call) and _nm(it.args[0]) == 'accumulate':
+            acc = it.args[0]
+            init = [k.value for k in acc.keywords if k.arg == 'initial']
+            if len(acc.args) == 1 and len(acc.keywords) == 1 and init and isinstance(init[0], ast.Constant) and init[0].value == 0 \
+                    and isinstance(acc.args[0], (ast.Tuple, ast.List)) and acc.args[0].elts and all(atomic(w) and is_pure(w) for w in acc.args[0].elts):
+                rows, run = [], None
+                for w in acc.args[0].elts:
+                    start = copy.deepcopy(run) if run is not None else ast.Constant(value=0)
+                    run = copy.deepcopy(w) if run is None else ast.BinOp(left=run, op=ast.Add(), right=copy.deepcopy(w))
+                    rows.append(ast.Tuple(elts=[start, copy.deepcopy(run)], ctx=ast.Load()))
+                return rows
+            return None
         # a record built on the spot iterates over its field values in field order
         if isinstance(it, ast.Call) and isinstance(it.func, ast.Name) and it.func.id in (getattr(self, 'ntypes', None) or {}) \
                 and not any(isinstance(a, ast.Starred) for a in it.args) and all(k.arg for k in it.keywords):
